@@ -54,7 +54,10 @@ REPO_CRATES = ("read_fonts", "skrifa", "font_types", "incremental_font_transfer"
 
 def parse_type(s):
     """'a::B<C, d::E<F>>' -> (name, [args]) ; tolerant, good enough for iterator types"""
-    s = s.strip()
+    s = s.strip().replace("->", "\u2192")       # the arrow of fn types is not a closing bracket
+    s = re.sub(r"^for<[^>]*>\s*", "", s)        # higher-ranked fn pointer types
+    if s.startswith(("fn(", "unsafe fn(", "extern ")):
+        return ("fn-pointer", [])
     i = s.find("<")
     if i < 0 or not s.endswith(">"):
         return (s, [])
@@ -248,6 +251,9 @@ def classify(b, h, us, body):
     bs = _bisection(b, h, us, body, dom)
     if bs is not None:
         return "bisection", True, bs
+    dr = _drain(b, h, us, body, dom, assigned)
+    if dr is not None:
+        return "drain", True, dr
     if best is not None:
         return "iterator:" + best[0], False, best[1][:100]
     calls = sorted({b.blocks[c].term.callee.split("::")[-1] for c in body
@@ -450,6 +456,51 @@ def _bisection(b, h, us, body, dom):
         if any(u in seen for u in us):
             continue
         return f"bisection: the loop runs while _{lo} < _{hi} and every trip sets _{lo} = mid + k or _{hi} = mid, mid a midpoint of the two"
+    return None
+
+
+POP_RE = re.compile(r"^(alloc::vec::Vec::<T, A>::pop|alloc::collections::vec_deque::VecDeque::<T, A>::pop_(front|back)|"
+                    r"alloc::collections::btree::(set::BTreeSet|map::BTreeMap)::<[^>]*>::pop_(first|last)|"
+                    r"alloc::collections::binary_heap::BinaryHeap::<T, A>::pop)$")
+
+
+def _drain(b, h, us, body, dom, assigned):
+    """`while let Some(x) = work.pop() { .. }` where nothing in the loop can put elements back: each trip removes one
+    element of a finite std container"""
+    for c in sorted(body):
+        t = b.blocks[c].term
+        if t.kind != "call" or not t.args or not POP_RE.match(t.callee) or not all(c in dom[u] for u in us):
+            continue
+        recv = op_local(t.args[0])
+        root = _root_of_ref(b, recv) if recv is not None else None
+        if root is None or (root in assigned and not (0 < root <= b.argc)):
+            continue
+        # the field path of the receiver (e.g. `(*self).todo`), to tell it from other containers behind the same root
+        sd = b.single_def(recv)
+        rpath = None
+        if sd is not None and not isinstance(sd[2], Term) and sd[2][0] in ("ref", "raw"):
+            rpath = _fields(sd[2][2][1])
+        grows = False
+        for bb in body:
+            t2 = b.blocks[bb].term
+            if t2.kind != "call" or bb == c:
+                continue
+            for a, aty in zip(t2.args, t2.d.get("atys") or []):
+                if not aty.startswith("&mut"):
+                    continue
+                al = op_local(a)
+                if al is None or _root_of_ref(b, al) != root:
+                    continue
+                sd2 = b.single_def(al)
+                p2 = _fields(sd2[2][2][1]) if sd2 is not None and not isinstance(sd2[2], Term) and sd2[2][0] in ("ref", "raw") else None
+                if rpath is None or p2 is None or None in rpath or None in p2:
+                    grows = True
+                else:
+                    n = min(len(rpath), len(p2))
+                    if rpath[:n] == p2[:n]:
+                        grows = True         # the container itself, or something containing it, is handed out mutably
+        if not grows:
+            return f"every trip pops one element of {t.callee.split('::')[-3] if '::' in t.callee else 'a container'} and nothing in the loop can add to it"
     return None
 
 
